@@ -800,3 +800,10 @@ def _shrink_candidates(case):
         yield dict(case, reset_on_drift=False)
     if case.get("frame"):
         yield dict(case, frame=False)
+
+
+# ------------------------------------------------------------------ the translated ensemble classes (second tie)
+def obligations(ctx):
+    """ensemble.py's update / reset / set_reference re-translated to Gallina and re-proved equal to Ensemble.v on every run."""
+    from .pytrans import obligations_ensemble
+    yield from obligations_ensemble(ctx)
